@@ -49,7 +49,10 @@ def kernel_cases(ctx, n_inputs, stream, res, stats):
     rng = ctx.rng(stream)
     items, text = [], []
     for _ in range(n_inputs):
-        ts, info = sc.gen_input(rng, unary_bias=0.45)
+        if rng.random() < 0.4:
+            ts, info = sc.gen_single_event(rng)
+        else:
+            ts, info = sc.gen_input(rng, unary_bias=0.45)
         if ts.num_edges == 0:
             continue
         for f in info["fired"]:
@@ -119,8 +122,12 @@ def date_cases(ctx, n, stream, res, stats):
     while done < n and tries < 6 * n:
         tries += 1
         ts, info = gen.sim_ts(rng, n=int(rng.integers(3, 8)), trees=int(rng.choice([1, 2, 4, 8])), muts_per_edge=3.0)
-        mode = str(rng.choice(["clean", "unary", "unary", "sample_unary"]))
-        if mode != "clean":
+        mode = str(rng.choice(["clean", "unary", "single_event", "sample_unary"]))
+        if mode == "single_event":
+            ts, how = sc.truncate_edge(ts, rng)
+            if how is None:
+                continue
+        elif mode != "clean":
             ts2 = sc.keep_unary_subset(ts, rng)
             if ts2 is None or ts2.num_edges == 0:
                 continue
@@ -177,7 +184,8 @@ def run(ctx):
     kernel_cases(ctx, ctx.n(70, 1400), 1, res, stats)
     date_cases(ctx, ctx.n(24, 400), 2, res, stats)
     res.rule = ("B/C: tskit tree sequences (recombination, polytomies, gaps, flanks, historical and internal samples, "
-                "keep_unary simplification, dead-end branches, sample nodes that are unary, non-integer coordinates) x "
+                "keep_unary simplification, dead-end branches, sample nodes that are unary, non-integer coordinates; 40% clean "
+                "simulations with a single truncated edge = exactly one unary event, by edge removal or by edge insertion) x "
                 "3 masks (samples / none / random) x (tskit indexes | tie-shuffled valid indexes): kernel, wrapper, "
                 "iterator detector and Lean models compared exactly, and against a naive scan of every tree; date() with "
                 "allow_unary=False over 3 methods. Non-trivial = more than one tree and >= 3 edges (kernel cases) or a "
